@@ -28,6 +28,9 @@ let unhex s =
 
 (* ---- token stream over a line ------------------------------------------- *)
 type toks = { v : Stdlib.String.t array; mutable i : int }
+(* cell handles taken on a canvas (K id hold x y) and used later (K id heldset k e):
+   they keep denoting cell (x,y) of that canvas *)
+let held : (int, int * int) Hashtbl.t = Hashtbl.create 8
 let num t = let x = int_of_string t.v.(t.i) in t.i <- t.i + 1; x
 let str t = let x = t.v.(t.i) in t.i <- t.i + 1; x
 let split line = Array.of_list (List.filter (fun s -> s <> "") (String.split_on_char ' ' line))
@@ -178,6 +181,9 @@ let model_line out w line =
              Hashtbl.replace w.canvases id { c with grid = List.map (fun _ -> e) c.grid }
          | "iterset" -> let i = num t in let e = mk_elem t in let c = Hashtbl.find w.canvases id in
              Hashtbl.replace w.canvases id { c with grid = List.mapi (fun k x -> if k = i then e else x) c.grid }
+         | "hold" -> let x = num t in let y = num t in Hashtbl.replace held id (x, y)
+         | "heldset" -> ignore (num t); let e = mk_elem t in let (x, y) = Hashtbl.find held id in
+             Hashtbl.replace w.canvases id (cv_set (Hashtbl.find w.canvases id) (n_of_int x) (n_of_int y) e)
          | "dump" -> let c = Hashtbl.find w.canvases id in
              out (Printf.sprintf "KSZ %d %d %d" (int_of_n c.cw) (int_of_n c.ch) (List.length c.grid));
              List.iter (fun e -> out ("KE " ^ pr_elem e)) c.grid
@@ -380,6 +386,9 @@ let oracle_mode () =
                Hashtbl.replace canvases id { c with grid = List.map (fun _ -> e) c.grid }
            | "iterset" -> let i = num t in let e = mk_elem t in let c = Hashtbl.find canvases id in
                Hashtbl.replace canvases id { c with grid = List.mapi (fun k x -> if k = i then e else x) c.grid }
+           | "hold" -> let x = num t in let y = num t in Hashtbl.replace held id (x, y)
+           | "heldset" -> ignore (num t); let e = mk_elem t in let (x, y) = Hashtbl.find held id in
+               Hashtbl.replace canvases id (cv_set (Hashtbl.find canvases id) (n_of_int x) (n_of_int y) e)
            | _ -> ())
       | "S" ->
           let id = num t in
